@@ -844,6 +844,9 @@ def c26(tier, seed):
         for j in range(nw):
             ws.append({"do": "write_f", "id": rng.randint(1, 5), "val": rng.randint(1, 5), "name": rng.choice(names)})
         readers = {"do": "cft_readers", "part": 1, "qos": q(dur=dur), "expr": expr, "params": [param], "field": field, "op": op}
+        if k % 2:
+            # a second filtered reader of the same subscriber with another parameter
+            readers["params2"] = [rng.choice([x for x in names[:5] if x != param]) if field == "name" else str(rng.choice([x for x in (1, 2, 3, 4, 5) if str(x) != param]))]
         steps = [{"do": "participant"}, {"do": "participant"}, {"do": "cft_writer", "part": 0, "qos": q(dur=dur)}]
         if family == "latejoin":
             steps += ws + [{"do": "sleep", "ms": 50}, readers, {"do": "sleep", "ms": 800}]
